@@ -23,6 +23,16 @@ def fuzz(workers, runs, **kw):
 NOT_CLAIMED = {}
 
 PROPS = {
+    "C10": dict(
+        level="exploration",
+        technique="simulation-based differential property testing: reference-encoded requests into a libcoap server with a generated resource table; executable decision table (admissible-outcome sets) + handler log oracle",
+        level_text="Generated server configurations and requests over every code class, type, option combination and destination; the reply and the handler log must lie in the set "
+                   "of outcomes admitted by an executable reading of the statement's rules (no precedence imposed where several rules apply).",
+        level_note="Trusted base: decision table in props/C10.cc (DESIGN.md appendix A), ref/refcodec.h, sim/sim.cc. Error response payloads (diagnostic text) are not compared. Observe and block-wise handling are C11/C09.",
+        quick=rc(8, 8000),
+        thorough=rc(14, 250000) + fuzz(2, 300000, max_len=360),
+        **SIM,
+    ),
     "C08": dict(
         level="exploration",
         technique="simulation-based property testing: bursts of CON/NON submissions against scripted ACK/RST peers with faults on a virtual network; in-flight counter, FIFO and exactly-once oracle computed from the wire trace; TCP sessions with withheld CSM for the not-yet-established clause",
